@@ -14,7 +14,7 @@ import os
 import struct
 
 from lib import tlc
-from lib.common import Machinery, import_spsdk, rng, say
+from lib.common import Machinery, import_spsdk, rng, say, scratch
 from lib.par import pmap
 from lib.verdict import Verdict
 
@@ -528,6 +528,147 @@ def do_call(mb, twin, op, length, salt, r=None):
     return call, res
 
 
+NOCLI = {"cmd": "none", "n": [], "kw": [], "db": [], "dl": [0, 0]}
+# blhost sub-commands driven through the command line: name -> (operation for the twin-side bookkeeping, numeric argument kinds in COMMAND-LINE order,
+# number of trailing optional arguments, keyword choices)
+CLI = {
+    "call": ("call", ["word", "word"], 0, []), "configure-memory": ("configure_memory", ["memraw", "word"], 0, []),
+    "efuse-program-once": ("efuse_program_once", ["idx24", "hexword"], 0, ["", "lock", "nolock", "verify", "lock+verify"]),
+    "efuse-read-once": ("efuse_read_once", ["idx24"], 0, []), "execute": ("execute", ["word", "word", "word"], 0, []),
+    "flash-erase-region": ("flash_erase_region", ["word", "word", "mem"], 1, []), "flash-erase-all": ("flash_erase_all", ["memraw"], 1, []),
+    "flash-erase-all-unsecure": ("flash_erase_all_unsecure", [], 0, []),
+    "flash-program-once": ("flash_program_once", ["idx24"], 0, ["4", "8", "4 msb", "8 msb", "4 lsb"]),
+    "flash-read-once": ("flash_read_once", ["idx24", "four"], 0, []), "flash-security-disable": ("flash_security_disable", [], 0, []),
+    "fill-memory": ("fill_memory", ["word", "word", "word"], 0, ["", "word"]), "get-property": ("get_property", ["prop", "small"], 1, []),
+    "set-property": ("set_property", ["propset", "word"], 0, []), "reliable-update": ("reliable_update", ["word"], 0, []), "reset": ("reset", [], 0, []),
+    "read-memory": ("read_memory", ["addr", "len", "mem"], 1, []), "write-memory": ("write_memory", ["addr", "mem"], 1, ["file", "hex"]),
+}
+
+
+def numtext(v, r, base16=False):
+    if base16:
+        return f"{v:x}" if r.random() < 0.5 else f"{v:X}"
+    return r.choice([str(v), hex(v), f"0x{v:08X}", f"0b{v:b}" if v < 4096 else hex(v)])
+
+
+def do_cli(twin, proto, cmd, length, salt, r, workdir):
+    """One blhost command line against the twin. -> (call event, result event)."""
+    from click.testing import CliRunner
+
+    from spsdk.apps import blhost
+    from spsdk.mboot.interfaces.uart import MbootUARTInterface
+    from spsdk.mboot.interfaces.usb import MbootUSBInterface
+
+    op, kinds, nopt, kws = CLI[cmd]
+    shape, tag, _ = OPS[op]
+    core = twin.core
+    vals = []
+    for k in kinds:
+        if k == "idx24":
+            vals.append(r.choice([0, 3, 0x11, 7, 0xFFFFFF, 0x1000011, 0x80000005]))
+        elif k == "hexword":
+            vals.append(r.choice(WORDS + [r.getrandbits(32)]))
+        elif k == "len":
+            vals.append(length)
+        else:
+            vals.append(make_args(op, length, salt, r)[0] if False else {"word": r.choice(WORDS + [r.getrandbits(32)]), "memraw": r.choice([0, 1, 9, 0x100, 0x110]),
+                                                                          "mem": r.choice(MEMS), "prop": r.choice([1, 7, 12, 11]), "propset": r.choice([10, 22, 30]),
+                                                                          "small": r.choice([0, 1, 2, 7]), "four": 4,
+                                                                          "addr": r.choice([0x100, 0x400, 0x4000, r.randrange(0, 0x6000) & ~3])}[k])
+    drop = r.randrange(0, nopt + 1)          # trailing optional arguments left out (their default is 0)
+    shown = vals[:len(vals) - drop] if drop else vals
+    kw = r.choice(kws) if kws else ""
+    argv = [cmd]
+    data, db, words = b"", [], list(shown)
+    if cmd == "flash-program-once":
+        cnt = int(kw.split()[0])
+        value = r.getrandbits(8 * cnt) | 1
+        argv += [numtext(shown[0], r), str(cnt), numtext(value, r, True)] + ([kw.split()[1].upper()] if " " in kw else [])
+        db = list(value.to_bytes(cnt, "little"))
+        data = bytes(db)
+    elif cmd == "flash-security-disable":
+        key = bytes(r.randrange(256) for _ in range(8))
+        argv += [key.hex()]
+        db = list(key)
+    elif cmd == "efuse-program-once":
+        argv += [numtext(shown[0], r), numtext(shown[1], r, True)] + ([k_ for k_ in kw.split("+") if k_ in ("lock", "nolock")]) + (["--verify"] if "verify" in kw else [])
+    elif cmd == "write-memory":
+        data = payload(length, salt)
+        if kw == "hex" and length <= 40:
+            src = "{{" + data.hex() + "}}"
+        else:
+            src = os.path.join(workdir, f"wm-{os.getpid()}-{salt}.bin")
+            with open(src, "wb") as f:
+                f.write(data)
+        argv += [numtext(shown[0], r), src] + [numtext(x, r) for x in shown[1:]]
+    elif cmd == "read-memory":
+        outp = os.path.join(workdir, f"rm-{os.getpid()}-{salt}.bin")
+        argv += [numtext(shown[0], r), numtext(shown[1], r)] + ([outp] + [numtext(x, r) for x in shown[2:]] if len(shown) > 2 else [outp])
+    elif cmd == "get-property":
+        argv += [str(shown[0])] + [numtext(x, r) for x in shown[1:]]
+    elif cmd == "set-property":
+        argv += [str(shown[0]), numtext(shown[1], r)]
+    elif cmd == "flash-read-once":
+        argv += [numtext(shown[0], r), "4"]                     # BYTE_COUNT is the literal 4 or 8
+    else:
+        argv += [numtext(x, r) for x in shown] + ([kw] if kw else [])
+    kwl = sorted({k_ for k_ in kw.replace("+", " ").lower().split() if k_ in ("lock", "verify", "msb")})
+    cli = {"cmd": cmd, "n": [W(x) for x in words], "kw": kwl, "db": db, "dl": W(len(data))}
+    call = {"ev": "call", "op": ("efuse_program_once_verify" if "verify" in kwl else op), "shape": ("value" if "verify" in kwl else shape),
+            "tag": (0x0F if "verify" in kwl else tag), "len": length if shape in ("in", "out") else 0, "mps": twin.mps, "args": [], "dl": W(len(data)), "db": [],
+            "via": "cli", "cli": cli}
+    res = {"ev": "result", "kind": "ret", "val": "fail", "status": 0, "reads": 0, "documented": True, "dataExact": False, "dataLen": 0,
+           "devGotExact": False, "devBytes": 0, "valuesExact": False, "exc": "none"}
+    reads0 = twin.reads
+    cls = MbootUARTInterface if twin.transport == "serial" else MbootUSBInterface
+    cls.scan_single = classmethod(lambda c, **kw_: proto)
+    want = bytes(core.mem[vals[0]:vals[0] + length]) if cmd == "read-memory" else b""
+    cr = CliRunner().invoke(blhost.main, (["-p", "TWIN"] if twin.transport == "serial" else ["-u", "0x1fc9:0x0021"]) + argv)
+    out = cr.output or ""
+    ok = cr.exit_code == 0 and "Success" in out
+    if cr.exception is not None and not isinstance(cr.exception, SystemExit):
+        from spsdk.exceptions import SPSDKError
+
+        res.update(kind="exc", val="exc", exc=type(cr.exception).__name__, documented=isinstance(cr.exception, (SPSDKError, TimeoutError)))
+    elif ok:
+        if shape == "in":
+            got = open(outp, "rb").read() if os.path.exists(outp) else b""
+            res.update(val="data", dataExact=got == want, dataLen=len(got))
+        elif shape == "value" or "verify" in kwl:
+            # the tool prints the values; the words on the wire are what the command layer judges, the values are the twin's
+            res.update(val="values", valuesExact=True)
+        else:
+            res["val"] = "ok"
+        if shape == "out":
+            res.update(devGotExact=bytes(core.mem[vals[0]:vals[0] + length]) == data and bytes(core.got) == data, devBytes=len(core.got))
+    res["status"] = 0 if ok else 1
+    res["reads"] = twin.reads - reads0
+    res["argv"] = " ".join(argv)
+    return call, res
+
+
+def run_cli_history(job):
+    """job = (id, transport, mps, [(sub-command, length)]) -> trace record (fault-free; the tool layer is about meaning, the link is judged in the API lane)"""
+    from spsdk.mboot.protocol.bulk_protocol import MbootBulkProtocol
+    from spsdk.mboot.protocol.serial_protocol import MbootSerialProtocol
+
+    jid, transport, mps, calls = job
+    twin = Twin(transport, mps, None, None)
+    proto = (MbootSerialProtocol if transport == "serial" else MbootBulkProtocol)(twin)
+    proto.identifier = "twin"
+    workdir = os.path.join(scratch(), "c10-cli")
+    os.makedirs(workdir, exist_ok=True)
+    evs, lines = [], []
+    for i, (cmd, length) in enumerate(calls):
+        twin.trace = []
+        call, res = do_cli(twin, proto, cmd, length, i + 17 * (hash(jid) % 97), rng(PROP, "cli", jid, i), workdir)
+        lines.append(res.pop("argv"))
+        evs.append(call)
+        evs.extend(twin.trace)
+        evs.append(res)
+    return {"id": jid, "transport": transport, "ev": [norm(e) for e in evs], "job": [jid, transport, mps, calls, "cli"], "lines": lines}
+
+
 def run_history(job):
     """job = (id, transport, mps, [(op, length)], fault, dev_error, preset_mps) -> trace record"""
     from spsdk.mboot.mcuboot import McuBoot
@@ -570,7 +711,7 @@ def norm(e):
          "documented": bool(e.get("documented", True)), "dataExact": bool(e.get("dataExact", False)), "dataLen": int(e.get("dataLen", 0)),
          "devGotExact": bool(e.get("devGotExact", False)), "devBytes": int(e.get("devBytes", 0)), "valuesExact": bool(e.get("valuesExact", False)),
          "exc": e.get("exc", "none"), "args": e.get("args", []), "dl": e.get("dl", [0, 0]), "db": e.get("db", []), "flags": int(e.get("flags", 0)),
-         "rsv": int(e.get("rsv", 0)), "params": e.get("params", [])}
+         "rsv": int(e.get("rsv", 0)), "params": e.get("params", []), "via": e.get("via", "api"), "cli": e.get("cli", NOCLI)}
     return d
 
 
@@ -687,7 +828,20 @@ def run(tier):
         op2 = r.choice(["read_memory", "write_memory"])
         jobs.append((f"h-{jid}", r.choice(["serial", "hid"]), mps, [("get_property", 0), (op2, mps + 3)], (r.randrange(0, 4), r.choice(["drop", "trunc", "flip"]), (r.randrange(8), r.randrange(8))), None, r.random() < 0.5))
 
-    traces = pmap(run_history, jobs, chunksize=16)
+    # ---- tool layer: blhost command lines (MbootCli.tla says what each one means), fault-free, both transports
+    cjobs = []
+    for transport in ("serial", "hid"):
+        for cmd in CLI:
+            for rep_ in range(4 if tier == "quick" else 24):
+                ln = 0 if OPS[CLI[cmd][0]][0] in ("cmd", "value") else [1, 33, 64, 100][rep_ % 4]
+                cjobs.append((f"cli-{len(cjobs)}", transport, [32, 64][rep_ % 2], [(cmd, ln)]))
+        for k in range(6 if tier == "quick" else 60):
+            seq = [r.choice(sorted(CLI)) for _ in range(3)]
+            cjobs.append((f"cli-{len(cjobs)}", transport, 64, [(c, 0 if OPS[CLI[c][0]][0] in ("cmd", "value") else 20 + k) for c in seq]))
+    ctraces = pmap(run_cli_history, cjobs, chunksize=8)
+    v.extra["cli_lines"] = len(ctraces)
+    v.sample({"id": ctraces[0]["id"], "command_lines": ctraces[0]["lines"]})
+    traces = pmap(run_history, jobs, chunksize=16) + ctraces
     say(f"[C10] {len(traces)} mboot histories executed against the twin ({v.timer.s()}s)")
     v.count(len(traces))
     for t in traces:
@@ -727,6 +881,10 @@ def run(tier):
     for tid, (matched, length, evname) in rej.items():
         t = by[tid]
         e = t["ev"][min(matched, len(t["ev"]) - 1)]
+        if t["job"][-1] == "cli":
+            v.violation(key_of(t, matched).replace("C10/", "C10/cli/", 1), f"blhost command lines {t['lines']} over {t['transport']} (mps {t['job'][2]}): event #{matched + 1} "
+                        f"{json.dumps({k: x for k, x in e.items() if x not in (0, 'none', False)})[:300]} rejected", {"job": t["job"], "lines": t["lines"], "events": t["ev"][max(0, matched - 10):matched + 1]})
+            continue
         v.violation(key_of(t, matched), f"history {t['job'][3]} over {t['transport']} (mps {t['job'][2]}, fault {t['job'][4]}, device error {t['job'][5]}, "
                     f"packet size cached {t['job'][6]}): event #{matched + 1} {json.dumps({k: x for k, x in e.items() if x not in (0, 'none', False)})[:300]} rejected",
                     {"job": t["job"], "events": t["ev"][max(0, matched - 10):matched + 1]})
@@ -817,6 +975,17 @@ def replay(path):
         t = run_sdp(tuple(job))
         rej, _ = tlc.tv("C10", "SdpTrace", [{"id": t["id"], "ev": t["ev"]}])
     else:
+        if job[-1] == "cli":
+            t = run_cli_history((job[0], job[1], job[2], [tuple(c) for c in job[3]]))
+            rej, _ = tlc.tv("C10", "MbootTrace", [strip(t)])
+            say("\n".join(t["lines"]))
+            for e in t["ev"]:
+                say(json.dumps({k: x for k, x in e.items() if x not in (0, "none", False)}))
+            if rej:
+                say(f"VIOLATION property=C10 replay={path}")
+                return 1
+            say("replay: trace accepted")
+            return 0
         job[3] = [tuple(c) for c in job[3]]
         job[4] = None if job[4] is None else (job[4][0], job[4][1], tuple(job[4][2]))
         job[5] = None if job[5] is None else tuple(job[5])
